@@ -37,3 +37,10 @@ Print Assumptions C09_distinct_shared_refuted.
 Theorem C09_var_old_refuted : exists l, nonnull l <> [] /\ ~ dp_var_old l == variance (nonnull l).
 Proof. exact dp_var_old_refuted. Qed.
 Print Assumptions C09_var_old_refuted.
+
+(* pagination above the aggregation (ORDER BY the keys LIMIT lim OFFSET off): group-wise exactness carries over to windows *)
+Theorem C09_window_exact : forall (G R : Type) (dp ex : G -> R) (eqR : R -> R -> Prop) lim off (groups : list G),
+  (forall g, In g groups -> eqR (dp g) (ex g)) ->
+  Forall2 eqR (window lim off (map dp groups)) (window lim off (map ex groups)).
+Proof. exact window_exact. Qed.
+Print Assumptions C09_window_exact.
